@@ -532,6 +532,20 @@ class Twin:
                 )
             elif name in ("save", "exit", "enter", "str"):
                 return self._file_op(op)
+            elif name in ("log", "condense"):
+                lw = self.lws[op["lw"]]
+                lab = op.get("label")
+                a = {"lw": op["lw"] + 1, "label": label_arg(lab if lab not in ("first", "last") else None),
+                     "mode": lab if lab in ("first", "last") else "given", "n": op.get("n", 0),
+                     "hist": [proj_entry(l0, a0, unit) for l0, a0 in lw.history]}
+                self._a_pending = a
+                if name == "log":
+                    lw.log(lab)
+                elif "label" in op:
+                    lw.condense_log(op["n"], label=lab)
+                else:
+                    a["mode"] = "last"
+                    lw.condense_log(op["n"])
             elif name == "emit":
                 a = self._emit(op)
             elif name in ("evo_aspirate", "evo_dispense"):
@@ -592,9 +606,11 @@ class Twin:
             if isinstance(e, RuntimeError) and "unknown abstract operation" in str(e):
                 raise
             exc = e
-            if name in ("emit", "evo_aspirate", "evo_dispense", "evo_wash"):
+            if name in ("emit", "evo_aspirate", "evo_dispense", "evo_wash", "log", "condense"):
                 a = self._a_pending
         post, cs = self.project(oplabel if isinstance(oplabel, str) else None)
+        if name in ("log", "condense"):
+            post["histafter"] = [proj_entry(l0, a0, unit) for l0, a0 in self.lws[op["lw"]].history]
         recs, prefix_ok, wlen = self.new_records(with_cp)
         ev = {"op": name, "a": a, "out": outcome_class(exc), "post": post, "recs": recs, "wprefix": prefix_ok, "wlen": wlen,
               "hasmodel": False}
